@@ -38,9 +38,11 @@ SCHED_MEASURE = "distinct (permutation kind, n, batch size, split) schedule sign
 SIM_TIME_NOTE = "no clock in this engine; sim_time_s is 0"
 ASSUMPTIONS = [
     "only batch sizes the public batch_size argument can produce are used (no arbitrary partitions)",
-    "batch invariance is checked for autograd=True and the l1/l2 amplitude/intensity losses "
-    "(poisson is not batch-fraction scaled by construction and outside the claim), at fixed "
-    "parameters (the optimizer update is skipped by a tap on the public step_optimizers method)",
+    "batch invariance of the LOSS is checked for all five loss types and both gradient paths; of the "
+    "GRADIENTS for autograd=True only (autograd=False yields an update direction that every batch "
+    "normalises by its own probe overlap, not the gradient of the loss); at fixed parameters (the "
+    "optimizer update is skipped by a tap on the public step_optimizers method), also after a "
+    "warm-up of real iterations and with soft constraints",
     "float32 tolerance rtol=1e-4 (calibrated: HEAD deviates <= 3e-7)",
 ]
 COMPONENTS_REAL = ["ptycho_utils.SimpleBatcher", "utils.generate_batches/subdivide_batches",
@@ -143,7 +145,8 @@ def gen(rng: Rng, tier, i):
         return {"w": "A", "cfgs": cfgs}
     if w == "B":
         return {"w": "B", "data_seed": rng.randrange(1000), "scan": rng.pick([[6, 6], [4, 6], [3, 9]]),
-                "loss": rng.pick(["l2_amplitude", "l1_amplitude", "l2_intensity", "l1_intensity"]),
+                "loss": rng.pick(["l2_amplitude", "l1_amplitude", "l2_intensity", "l1_intensity", "poisson"]),
+                "autograd": rng.fork("autograd").pick([True, True, False]),
                 "ratio": rng.pick([0.0, 0.0, 0.25, 0.5]), "mode": rng.pick(["grid", "random"]),
                 "obj_type": rng.pick(["complex", "pure_phase", "potential"]),
                 "modes": rng.pick([1, 1, 2]), "slices": rng.pick([1, 1, 2]),
@@ -297,6 +300,8 @@ def _run_B(plan, res, viol):
     import torch
 
     bump(res["probes"], "workload_B")
+    if not plan.get("autograd", True):
+        bump(res["probes"], "analytic_gradients")
     pt = _build(plan, ratio=plan["ratio"], mode=plan["mode"], obj_type=plan["obj_type"],
                 n_modes=plan["modes"], num_slices=plan["slices"])
     keys = plan.get("keys", ["object", "probe"])
@@ -313,6 +318,7 @@ def _run_B(plan, res, viol):
         bump(res["probes"], "tapped_after_warmup")
         pt.rng = simsched.SimGenerator(plan["split_seed"], ["random"] + plan["kinds"])
         pt.reconstruct(num_iters=plan["warm"], batch_size=None, loss_type=plan["loss"],
+                       autograd=plan.get("autograd", True),
                        optimizer_params={k_: {"type": "sgd", "lr": 5e-2} for k_ in keys})
     ref = None
     sizes = {}
@@ -330,7 +336,8 @@ def _run_B(plan, res, viol):
         pt.taps = {"loss": [], "g_obj": [], "g_probe": []}
         n0 = pt.num_iters
         try:
-            pt.reconstruct(num_iters=1, batch_size=b, loss_type=plan["loss"])
+            pt.reconstruct(num_iters=1, batch_size=b, loss_type=plan["loss"],
+                           autograd=plan.get("autograd", True))
         except Exception as e:
             viol("op_raised", f"reconstruct(batch_size={b}) raised {e!r}",
                  f"op_raised:reconstruct:{type(e).__name__}")
@@ -366,8 +373,12 @@ def _run_B(plan, res, viol):
                  f"{rec['loss']:.8g} vs full-batch {full['loss']:.8g} (rel {dl:.2e})",
                  f"loss_not_batch_invariant:{plan['loss']}")
         # only models that are being optimised have their gradients zeroed per batch
-        dg = _rel(rec["g_obj"], full["g_obj"]) if "object" in keys else 0.0
-        dp = _rel(rec["g_probe"], full["g_probe"]) if "probe" in keys else 0.0
+        # autograd=False does not produce the gradient of the loss but an update direction that each
+        # batch normalises by its own probe overlap (ePIE-style preconditioning): the gradient clause
+        # is about the loss gradient, the loss clause still applies
+        ag = plan.get("autograd", True)
+        dg = _rel(rec["g_obj"], full["g_obj"]) if ("object" in keys and ag) else 0.0
+        dp = _rel(rec["g_probe"], full["g_probe"]) if ("probe" in keys and ag) else 0.0
         if dg > 1e-4 or dp > 1e-4:
             viol("grad_not_batch_invariant", f"loss={plan['loss']} b={b}: mean per-batch gradient vs "
                  f"full-batch gradient rel. dev obj {dg:.2e} probe {dp:.2e}",
